@@ -475,6 +475,12 @@ fn sort_rank(i: u8) -> u8 {
 }
 
 fn build_plan(c: &Case) -> Result<Arc<dyn ExecutionPlan>, String> {
+    build_plan_opts(c, true)
+}
+
+/// `with_sort = false`: the grouped-TopK aggregate without the `SortExec(fetch)` above it, so that
+/// every group the limited aggregate itself emits can be checked
+fn build_plan_opts(c: &Case, with_sort: bool) -> Result<Arc<dyn ExecutionPlan>, String> {
     let schema = input_schema(c.key);
     let nk = n_keys(c.key);
     let e2s = |e: datafusion_common::DataFusionError| format!("plan construction: {e}");
@@ -592,7 +598,9 @@ fn build_plan(c: &Case) -> Result<Arc<dyn ExecutionPlan>, String> {
     };
     // TopK: the aggregate only keeps the k best groups; the plan shape of TopKAggregation has the
     // SortExec(fetch = k) directly above
-    if let Some(l) = limit {
+    if let Some(l) = limit
+        && with_sort
+    {
         let sch = top.schema();
         let name = sch.field(nk).name().clone();
         let by = LexOrdering::new(vec![PhysicalSortExpr::new(
@@ -670,7 +678,11 @@ fn spill_count(plan: &Arc<dyn ExecutionPlan>) -> usize {
 }
 
 fn execute(c: &Case) -> Result<(Vec<Vec<Val>>, usize), String> {
-    let plan = build_plan(c)?;
+    execute_opts(c, true)
+}
+
+fn execute_opts(c: &Case, with_sort: bool) -> Result<(Vec<Vec<Val>>, usize), String> {
+    let plan = build_plan_opts(c, with_sort)?;
     let ctx = task_ctx(&c.cfg);
     let parts = block_on(collect_partitioned(Arc::clone(&plan), ctx)).map_err(|e| format!("execution error: {e}"))?;
     let spills = spill_count(&plan);
@@ -705,6 +717,11 @@ struct Stats {
     /// ended in ResourcesExhausted under a memory limit (allowed: "a budget that lets it finish")
     exhausted: bool,
 }
+
+/// Root cause recorded on the unchanged tree (see known_findings.json): the grouped-TopK map keeps only the
+/// groups inside the heap; a group that lost (or was evicted) and later receives a NULL input is registered as
+/// an all-NULL group and emitted with a NULL aggregate.  Violations of exactly this history shape share one key.
+const TOPK_NULL_AFTER_VALUE: &str = "[grouped TopK: NULL input for a group the heap has dropped or never admitted] ";
 
 fn run_case(c: &Case) -> Result<Stats, String> {
     let nk = n_keys(c.key);
@@ -769,6 +786,52 @@ fn run_case(c: &Case) -> Result<Stats, String> {
             }
             if !seen.insert(r[..nk].to_vec()) {
                 return Err(format!("group {} emitted twice", show_row(&r[..nk])));
+            }
+        }
+        // the limited aggregate itself (no SortExec above it, single-stage shapes): every group it emits must
+        // carry the aggregate value of exactly that group's rows, no group twice, and the k best values must
+        // be among them - the SortExec(fetch) above would hide a wrongly valued extra group that sorts last
+        if matches!(c.cfg.mode, Mode::Single | Mode::SinglePartitioned) {
+            let (raw, _) = execute_opts(c, false).map_err(|e| format!("limited aggregate without the sort above it: {e}"))?;
+            let mut seen = HashSet::new();
+            for r in &raw {
+                if !expect.iter().any(|e| rows_equal(e, r)) {
+                    // history shape of the offending group: did its last input carry a NULL value (the map no
+                    // longer knows the group and registers it as all-NULL), or did a value arrive after a NULL?
+                    let inputs: Vec<Val> = c
+                        .rows
+                        .iter()
+                        .filter(|x| key1_val(c.key, x.0) == r[0])
+                        .map(|x| v_of(x.2).map(|v| Val::I(v as i128)).unwrap_or(Val::Null))
+                        .collect();
+                    let tag = if r[nk] == Val::Null && inputs.last() == Some(&Val::Null) && inputs.iter().any(|v| *v != Val::Null) {
+                        TOPK_NULL_AFTER_VALUE
+                    } else {
+                        ""
+                    };
+                    return Err(format!(
+                        "{tag}the limited aggregate (before the sort) emits {} which is not a group of the reference result {}",
+                        show_row(r),
+                        expect.iter().map(|r| show_row(r)).collect::<Vec<_>>().join(" ")
+                    ));
+                }
+                if !seen.insert(r[..nk].to_vec()) {
+                    return Err(format!("the limited aggregate (before the sort) emits group {} twice", show_row(&r[..nk])));
+                }
+            }
+            let mut vals: Vec<Val> = raw.iter().map(|r| r[nk].clone()).collect();
+            for w in &want {
+                match vals.iter().position(|v| close(v, w)) {
+                    Some(i) => {
+                        vals.swap_remove(i);
+                    }
+                    None => {
+                        return Err(format!(
+                            "the limited aggregate (before the sort) does not emit a group with value {} of the reference's first {k}",
+                            show_row(std::slice::from_ref(w))
+                        ));
+                    }
+                }
             }
         }
         return Ok(stats);
@@ -1001,6 +1064,14 @@ fn sweeps(ctx: &Ctx) -> Vec<Sweep> {
             }
         }
     }
+    // four rows: the shortest histories in which a group registered with a NULL input, a full heap, a losing
+    // value for a group inside the heap and a losing value for the NULL group all occur (k <= 2)
+    let single = vec![Mode::Single];
+    for k in 1..=2 {
+        for aggs in [AggSet::One(One::TopKMin(k)), AggSet::One(One::TopKMax(k))] {
+            v.push(sw(KeyTy::I64, aggs, 4, 4, if t { &topk_modes } else { &single }, Opts::Default));
+        }
+    }
     v
 }
 
@@ -1101,12 +1172,13 @@ fn explore(ctx: &Ctx) {
                 .filter(|ch| !ch.is_ascii_digit())
                 .take(70)
                 .collect();
-            let class = format!("{:?}/{:?}/{}", c.key, c.aggs, norm);
+            let root_cause = what.starts_with(TOPK_NULL_AFTER_VALUE);
+            let class = if root_cause { TOPK_NULL_AFTER_VALUE.to_string() } else { format!("{:?}/{:?}/{}", c.key, c.aggs, norm) };
             if !reported.lock().unwrap().insert(class) {
                 ctx.count("violations_of_an_already_reported_class", 1);
                 continue;
             }
-            let key = serde_json::to_string(&c).unwrap();
+            let key = if root_cause { TOPK_NULL_AFTER_VALUE.trim().to_string() } else { serde_json::to_string(&c).unwrap() };
             ctx.violation(key, what, serde_json::to_value(&c).unwrap());
         }
     }
